@@ -67,9 +67,13 @@ def run(prog, rep):
         pq = f.pq
         # ------------------------------------------------------------ R18.1a
         for q, tsub in seq:
-            if pq != q or (tsub and tsub not in f.id):
+            if pq != q:
                 continue
             d, nm = container_param(f)
+            if tsub:
+                ptype = next((f.type(p) for p in f.params if p.get('d') == d and 't' in p), '')
+                if not ptype.replace('const ', '').startswith(tsub):
+                    continue        # e.g. vector<vector<bool>> goes through the generic overload, only its element is the special loader
             rep.touch(f)
             n_seq += 1
             g = CFG(f)
